@@ -150,6 +150,37 @@ CLAIMS["C10"] = {
     "design": "DESIGN.md §5 C10",
 }
 
+CLAIMS["C05"] = {
+    "text": "Partial, bounded: the tombstone merge / comparison ALGORITHMS (SetUnionWithTombstones::{merge, partial_cmp, eq, is_bot}, "
+            "MapUnionWithTombstones::merge) run under Kani on the real crate with harness array-backed sets/maps standing for any Set / "
+            "TombstoneSet implementation (operands of <= 2 elements over a 4-value domain, well-formed: live and tombstones disjoint) against the "
+            "documented model tombstones' = t1 ∪ t2, live' = (s1 ∪ s2) minus tombstones': the result is exactly the model, live and tombstones stay "
+            "disjoint (nothing resurrected), `changed` iff the value differs, partial_cmp is the order induced by the model join, and a short "
+            "history shows a deleted item never reappears when live copies are merged later.",
+    "note": "NOT covered: that RoaringTombstoneSet (roaring crate) and FstTombstoneSet (fst crate) satisfy the TombstoneSet contract, hence "
+            "'backends are interchangeable'; MapUnionWithTombstones comparisons. A change inside tombstone.rs's adapters is not detected; a change "
+            "in the merge/compare algorithm is.",
+    "technique": "contract-based verification: Kani bounded harness contracts on the real algorithms against a set model, callee collections by contract",
+    "design": "DESIGN.md §5 C05",
+}
+CLAIMS["C06"] = {
+    "text": "Partial, bounded: Atomize::atomize of SetUnion (quick), WithBot/WithTop over SetUnion, MapUnion over SetUnion, UnionFind (thorough; "
+            "minutes each) on operands of <= 2 elements: every atom is non-bottom, there are no atoms iff the value is bottom, and merging the atoms "
+            "into the default value gives back the original (model membership / the crate's own eq).",
+    "note": "Box<dyn Iterator> + flat_map make these harnesses slow (2 s to 20 min); only atomize_set_union is in the quick tier. std collections not covered.",
+    "technique": "contract-based verification: Kani bounded harness contracts on the real crate",
+    "design": "DESIGN.md §5 C06",
+}
+CLAIMS["C07"] = {
+    "text": "PairBimorphism::call is verified by Verus generically (r.a == lat_a, r.b == lat_b) and both distributivity equations are a lemma over "
+            "the product carrier (lemma_pair_bimorphism). CartesianProductBimorphism::call is checked by Kani against its model (output == A x B, "
+            "every pair once; distributivity over union is then set algebra about the model) and, in the thorough tier, by the two-call "
+            "distributivity equation and KeyedBimorphism::call against its key-wise model (operands <= 2 elements).",
+    "note": "GHT bimorphisms are not covered (see C08). Kani parts are bounded by operand size; Vec as output collection is trusted.",
+    "technique": "contract-based deductive verification (Verus on the spliced body + lemma; Kani harness contracts against the product model)",
+    "design": "DESIGN.md §5 C07",
+}
+
 NOT_APPLICABLE = {
     "C08": "GHT nodes own std HashMap / hashbrown HashTable at every level; variadic type recursion is outside Verus' subset and CBMC does not get through hashbrown probing (spiked): no contract on these functions can be discharged here.",
     "C16": "Tool limit, measured: the channel (Rc<RefCell<Shared>>, Weak, VecDeque, SmallVec<[Waker;1]>) extracted verbatim into a Kani harness crate (contracts/kani/vk_mpsc, kept unregistered) drives CBMC to 35-65 GB RSS in propositional reduction for a single try_send call, also with static-vtable wakers, forgotten endpoints, Waker drop/wake/clone stubbed by direct dispatch, and tokio replaced by a shim of the two error types (DESIGN.md section 11 has the bisection); Rc/RefCell/Waker code is outside Verus' subset; the no-stranded-sender part is a liveness property needing whole-history ghost state. The stale-duplicate-waker stranding trace found while reading is documented in DESIGN.md section 6.2 with its native reproduction; no registered check reports it.",
